@@ -79,6 +79,8 @@ def check_stream(notes, cols, what):
     got = [fields(n) for n in nd]
     need(got == exp, f"{what}: from_notes then iterate gives {got[:6]}..., expected {exp[:6]}... ({len(got)} vs {len(exp)} notes); text {short!r}")
     need(nd.columns == cols, f"{what}: columns = {nd.columns}, requested {cols}")
+    ra, rb = N.interleaved_reads(nd)
+    need([fields(n) for n in ra] == exp and [fields(n) for n in rb] == exp, f"{what}: two interleaved iterations of the result do not both read back the notes; text {short!r}")
 
     # canonical structure
     sec = structure(text)
@@ -165,6 +167,9 @@ def check(case):
             need(list(nd1) == [], "empty chart re-encoded is not empty")
             return Verdict(nontrivial=False, labels=["empty-chart"])
         nd1, t1 = check_stream(notes, cols, "decoded chart")
+        # the NoteData object itself is a stream of notes too: same canonical text, however its own text is laid out
+        direct = NoteData.from_notes(src, cols)
+        need(str(direct) == t1, f"from_notes(<NoteData object>) gives {str(direct)[:200]!r}, from_notes(list of its notes) gives {t1[:200]!r}")
         nd2 = NoteData.from_notes(list(NoteData(t1)), cols)
         need(str(nd2) == t1, "decode -> encode -> decode -> encode is not stable after the first pass")
         need([fields(n) for n in NoteData(str(nd2))] == [fields(n) for n in notes], "notes changed over two encode passes")
